@@ -16,7 +16,8 @@ Not decided: i64 overflow at last+1; user-provided generators.
 """
 from ..inline import inline_view
 from ..mir import AnchorLost
-from ..util import backward_slice, cmp_truth, df_of, enum_variant_of_operand, operand_path, path_last, one_call, switch_on, switch_edges, in_set, fn_short, uses_of_local
+from .c20 import slice_fields
+from ..util import callers_keys, backward_slice, cmp_truth, df_of, enum_variant_of_operand, operand_path, path_last, one_call, switch_on, switch_edges, in_set, fn_short, uses_of_local
 
 GEN = "scylla::policies::timestamp_generator::MonotonicTimestampGenerator"
 TRAIT_M = "scylla::policies::timestamp_generator::TimestampGenerator::next_timestamp"
@@ -271,9 +272,48 @@ def r5(ctx, facts):
             r.fail("frame-timestamp:" + key, "no frame aggregate with a `timestamp` field found next to the fallback", p.span)
 
 
+def r6(ctx, facts):
+    r = ctx.rule("R6", "a batch the driver derives from the caller's batch (prepared copy) keeps the caller's configuration, explicit timestamp included", floor=2)
+    B = "scylla::statement::batch::Batch"
+    fresh = []
+    for b in facts.bodies.mentioning("statement::batch::Batch"):
+        if b.crate != "scylla" or b.path.startswith("scylla::statement::batch::") or b.path.startswith("<scylla::statement::batch::") or "::promoted[" in b.path:
+            continue
+        for bb, c in b.calls():
+            if bb not in b.live_blocks:
+                continue
+            nm = c.name or ""
+            if nm in (B + "::new", B + "::new_with_statements") or (c.decl == "core::default::Default::default" and callee_self(b, c) == B):
+                fresh.append((fn_short(b.path), nm.split("::")[-1], c.span))
+        for bb in b.live_blocks:
+            for st in b.stmts(bb):
+                if st[0] == "A" and st[2][0] == "agg" and st[2][1][0] == "adt" and st[2][1][1] == B:
+                    fresh.append((fn_short(b.path), "struct literal", b.stmt_span(st)))
+    r.instance("no-fresh-batch-in-the-request-path", not fresh,
+               "the driver builds a Batch with default configuration in %s: whatever the caller set on the original (timestamp, consistency, idempotence, ...) is lost for the batch that is "
+               "actually sent, and the timestamp generator's value replaces an explicit timestamp" % sorted({(a, k) for a, k, _ in fresh})[:3], fresh[0][2] if fresh else None)
+    nf = facts.one(r"^scylla::statement::batch::Batch::new_from$")
+    aggs = [st for bb in nf.live_blocks for st in nf.stmts(bb) if st[0] == "A" and st[2][0] == "agg" and st[2][1][0] == "adt" and st[2][1][1] == B]
+    ok = False
+    if len(aggs) == 1:
+        fields = aggs[0][2][1][4]
+        if "config" in fields:
+            op = aggs[0][2][2][fields.index("config")]
+            locs, calls, _ = backward_slice(nf, op)
+            ok = 1 in locs and "config" in slice_fields(nf, op)
+    r.instance("new_from-copies-config", ok, "Batch::new_from must take `config` from the batch it is given", nf.span)
+    derives = [c for c in callers_keys(facts, B + "::new_from")]
+    r.instance("derived-batches", True, "Batch::new_from callers: %s" % derives, nontrivial=False)
+
+
+def callee_self(b, c):
+    sti = c.callee.get("self_ty")
+    return b.ty(sti) if sti is not None else ""
+
+
 def check(ctx):
     facts = inline_view(ctx.facts("default"))
-    for fn in (r1_r2, r3, r5):
+    for fn in (r1_r2, r3, r5, r6):
         try:
             fn(ctx, facts)
         except AnchorLost as ex:
